@@ -73,7 +73,7 @@ type lineCase struct {
 	IPS    []ipPrint   `json:"ips"`
 	CP     []cidrParse `json:"cp"`
 	NP     []netPrint  `json:"np"`
-	Print  [][2]int    `json:"print"` // strconv.IsPrint on runes >= 0x80 seen in unquoted fields
+	Runes  [][3]int    `json:"runes"` // (rune, strconv.IsPrint, unicode.ToLower) for runes >= 0x80 of the unquoted fields
 }
 
 type dumpEnt struct {
@@ -82,22 +82,26 @@ type dumpEnt struct {
 }
 
 type fileCase struct {
-	Kind      string    `json:"kind"` // "file"
-	Class     string    `json:"class"`
-	V2        bool      `json:"v2"`
-	Serial    uint32    `json:"serial"`     // default serial of both compilations
-	PreSerial uint32    `json:"pre_serial"` // Codec.Serial of the preprocessor (0 or Serial)
-	File      [][]int   `json:"file"`       // the lines of the original file
-	PreErr    string    `json:"pre_err"`
-	Pre       [][]int   `json:"pre"` // lines written by the preprocessor
-	OrigErr   string    `json:"orig_err"`
-	Orig      []dumpEnt `json:"orig"`
-	PErr      string    `json:"p_err"`
-	PDump     []dumpEnt `json:"pdump"`
-	AccKV     []kvT     `json:"acc"`  // Accum.MarshalMap of a codec that decoded the original lines (the range points)
-	SoaN      []int     `json:"soan"` // per line of File: 1 if the line starts with 'Z'
-	IPS       []ipPrint `json:"ips"`  // printer oracle for range point addresses
-	Wf        bool      `json:"wf"`
+	Kind      string      `json:"kind"` // "file"
+	Class     string      `json:"class"`
+	V2        bool        `json:"v2"`
+	Serial    uint32      `json:"serial"`     // default serial of both compilations
+	PreSerial uint32      `json:"pre_serial"` // Codec.Serial of the preprocessor (0 or Serial)
+	File      [][]int     `json:"file"`       // the lines of the original file
+	PreErr    string      `json:"pre_err"`
+	Pre       [][]int     `json:"pre"` // lines written by the preprocessor
+	OrigErr   string      `json:"orig_err"`
+	Orig      []dumpEnt   `json:"orig"`
+	PErr      string      `json:"p_err"`
+	PDump     []dumpEnt   `json:"pdump"`
+	AccKV     []kvT       `json:"acc"`  // Accum.MarshalMap of a codec that decoded the original lines (the range points)
+	SoaN      []int       `json:"soan"` // per line of File: 1 if the line starts with 'Z'
+	IPP       []ipParse   `json:"ipp"`
+	IPS       []ipPrint   `json:"ips"`
+	CP        []cidrParse `json:"cp"`
+	NP        []netPrint  `json:"np"`
+	Runes     [][3]int    `json:"runes"`
+	Wf        bool        `json:"wf"`
 }
 
 // ---------------------------------------------------------------- running the real code
@@ -209,6 +213,34 @@ func (o *oracles) feedText(f []byte) {
 	}
 }
 
+func sortedKeys[V any](m map[string]V) []string {
+	ks := make([]string, 0, len(m))
+	for k := range m {
+		ks = append(ks, k)
+	}
+	sort.Strings(ks)
+	return ks
+}
+
+func (o *oracles) tables() ([]ipParse, []ipPrint, []cidrParse, []netPrint) {
+	ipp, ips, cp, np := []ipParse{}, []ipPrint{}, []cidrParse{}, []netPrint{}
+	for _, k := range sortedKeys(o.ipp) {
+		if o.ipp[k] != nil {
+			ipp = append(ipp, ipParse{hlib.Ints([]byte(k)), hlib.Ints(o.ipp[k])})
+		}
+	}
+	for _, k := range sortedKeys(o.ips) {
+		ips = append(ips, ipPrint{hlib.Ints([]byte(k)), hlib.Ints([]byte(o.ips[k]))})
+	}
+	for _, k := range sortedKeys(o.cp) {
+		cp = append(cp, o.cp[k])
+	}
+	for _, k := range sortedKeys(o.np) {
+		np = append(np, o.np[k])
+	}
+	return ipp, ips, cp, np
+}
+
 func (o *oracles) feedLine(line []byte) {
 	for _, f := range splitFields(line) {
 		o.feedText(f)
@@ -237,45 +269,12 @@ func runLine(line []byte, v2 bool, serial uint32, class string, wf bool) lineCas
 			c.S3 = step(t2, v2, serial)
 		}
 	}
-	c.IPP, c.IPS, c.CP, c.NP, c.Print = []ipParse{}, []ipPrint{}, []cidrParse{}, []netPrint{}, [][2]int{}
-	keys := func(m interface{}) []string {
-		var ks []string
-		switch mm := m.(type) {
-		case map[string][]byte:
-			for k := range mm {
-				ks = append(ks, k)
-			}
-		case map[string]string:
-			for k := range mm {
-				ks = append(ks, k)
-			}
-		case map[string]cidrParse:
-			for k := range mm {
-				ks = append(ks, k)
-			}
-		case map[string]netPrint:
-			for k := range mm {
-				ks = append(ks, k)
-			}
-		}
-		sort.Strings(ks)
-		return ks
+	// the texts the library prints for parsed values are parsed back by the guard
+	for _, k := range sortedKeys(o.ips) {
+		o.feedText([]byte(o.ips[k]))
 	}
-	for _, k := range keys(o.ipp) {
-		if o.ipp[k] != nil {
-			c.IPP = append(c.IPP, ipParse{hlib.Ints([]byte(k)), hlib.Ints(o.ipp[k])})
-		}
-	}
-	for _, k := range keys(o.ips) {
-		c.IPS = append(c.IPS, ipPrint{hlib.Ints([]byte(k)), hlib.Ints([]byte(o.ips[k]))})
-	}
-	for _, k := range keys(o.cp) {
-		c.CP = append(c.CP, o.cp[k])
-	}
-	for _, k := range keys(o.np) {
-		c.NP = append(c.NP, o.np[k])
-	}
-	c.Print = printOracle(line)
+	c.IPP, c.IPS, c.CP, c.NP = o.tables()
+	c.Runes = runeOracle([][]byte{line, hlib.Unints(c.S1.Text)})
 	return c
 }
 
@@ -366,7 +365,9 @@ func intsLines(ls [][]byte) [][]int {
 func runFile(scratch string, lines [][]byte, v2 bool, serial, preSerial uint32, class string, wf bool) fileCase {
 	builder := strings.Contains(class, "builder")
 	fc := fileCase{Kind: "file", Class: class, V2: v2, Serial: serial, PreSerial: preSerial, File: intsLines(lines), Wf: wf,
-		Pre: [][]int{}, Orig: []dumpEnt{}, PDump: []dumpEnt{}, AccKV: []kvT{}, SoaN: []int{}, IPS: []ipPrint{}}
+		Pre: [][]int{}, Orig: []dumpEnt{}, PDump: []dumpEnt{}, AccKV: []kvT{}, SoaN: []int{}}
+	o := newOracles()
+	o.addNet(net.IPv4zero.To16(), 96)
 	text := joinLines(lines)
 	// the preprocessor as cmd/dnsrocks-preproc configures it
 	var pre bytes.Buffer
@@ -418,17 +419,26 @@ func runFile(scratch string, lines [][]byte, v2 bool, serial, preSerial uint32, 
 		// canonical order: the goroutine per map makes the order of maps arbitrary
 		sort.SliceStable(m, func(i, j int) bool { return bytes.Compare(m[i].Key, m[j].Key) < 0 })
 		fc.AccKV = kvs(m)
-		seen := map[string]bool{}
 		for _, x := range m {
 			if len(x.Key) >= 22 {
-				ip := net.IP(x.Key[6:22])
-				if !seen[string(ip)] {
-					seen[string(ip)] = true
-					fc.IPS = append(fc.IPS, ipPrint{hlib.Ints(ip), hlib.Ints([]byte(ip.String()))})
-				}
+				o.addIP(net.IP(append([]byte{}, x.Key[6:22]...)))
 			}
 		}
 	}()
+	all := append([][]byte{}, lines...)
+	for _, l := range lines {
+		o.feedLine(bytes.TrimLeft(l, " "))
+	}
+	for _, l := range fc.Pre {
+		o.feedLine(hlib.Unints(l))
+		all = append(all, hlib.Unints(l))
+	}
+	// the texts the library prints for parsed values are parsed back by the guard
+	for _, k := range sortedKeys(o.ips) {
+		o.feedText([]byte(o.ips[k]))
+	}
+	fc.IPP, fc.IPS, fc.CP, fc.NP = o.tables()
+	fc.Runes = runeOracle(all)
 	for _, l := range lines {
 		z := 0
 		if len(l) > 0 && l[0] == 'Z' {
@@ -533,11 +543,18 @@ func run(a *hlib.Args, e *hlib.Emitter) error {
 				ls = append(ls, []byte(s))
 			}
 			class := "fixedfile"
-			if i == 0 && k == 0 {
+			if i == 0 && k == 0 && a.Tier == "thorough" {
 				class = "fixedfile-builder" // one compilation pair through the bulk builder (1 GB allocation each)
 			}
 			jobs = append(jobs, job{ls, v2, 1700000000, 1700000000, class, true})
 		}
+	}
+	for i, bf := range badFiles {
+		var ls [][]byte
+		for _, s := range bf {
+			ls = append(ls, []byte(s))
+		}
+		jobs = append(jobs, job{ls, i%2 == 1, 1700000000, 1700000000, "badfile", false})
 	}
 	for i := 0; i < nFiles; i++ {
 		v2 := rf.Chance(1, 2)
@@ -552,6 +569,18 @@ func run(a *hlib.Args, e *hlib.Emitter) error {
 			class += "-builder"
 		}
 		ls, wf, cl := gf.file()
+		if rf.Chance(1, 6) {
+			// a line the compiler rejects, often first (nothing buffered yet in the preprocessor)
+			bad := badLines[rf.Intn(len(badLines))]
+			pos := 0
+			if rf.Chance(1, 2) {
+				pos = rf.Intn(len(ls) + 1)
+			}
+			ls = append(ls[:pos:pos], append([][]byte{[]byte(bad)}, ls[pos:]...)...)
+			wf = false
+			class = "badfile"
+			cl = ""
+		}
 		jobs = append(jobs, job{ls, v2, serial, pre, class + cl, wf})
 	}
 	// the compilations run in parallel; the cases are emitted in generation order
